@@ -254,6 +254,40 @@ class Program:
                 return m
         return None
 
+    def global_home(self, mod: Mod, name: str, _depth: int = 0) -> Optional[Tuple[Mod, str]]:
+        """Where the module-level *name*, as seen from module *mod*, is really bound: (defining module, name there).
+        Follows ``from x import name [as alias]`` chains (also through a package ``__init__``); None when the name is
+        not bound by an assignment / def / class of the analysed tree."""
+        if _depth > 8:
+            return None
+        if name in mod.assigns or name in mod.functions or name in mod.classes:
+            return mod, name
+        if name in mod.imports:
+            src, orig = mod.imports[name]
+            if orig is None:
+                return None
+            m2 = self.mod_by_dotted(src)
+            if m2 is not None:
+                got = self.global_home(m2, orig, _depth + 1)
+                if got is not None:
+                    return got
+            m3 = self.mod_by_dotted(src + "." + orig)      # `from package import module`
+            if m3 is not None:
+                return None
+        return None
+
+    def global_def(self, mod: Mod, name: str):
+        """The value expression of the single module-level assignment that binds *name* as seen from *mod* (imports
+        followed); None when there is none or the name is assigned more than once."""
+        home = self.global_home(mod, name)
+        if home is None:
+            return None
+        m, nm = home
+        vals = m.assigns.get(nm, [])
+        if len(vals) == 1 and isinstance(vals[0], ast.expr):
+            return vals[0]
+        return None
+
     def functions_in(self, rel_prefix: str) -> Iterator[Fn]:
         for fn in self.fns:
             if fn.mod.rel.startswith(rel_prefix):
